@@ -113,6 +113,9 @@ func checkC16(c *Ctx) {
 	c.lenReject(p, "C16.verifyguard", p.Func("zk/dleq", "Proof", "UnmarshalBinary"), "data", false)
 	qv := p.Func("zk/qndleq", "Proof", "Verify")
 	c.guardEachSite(p, "C16.verifyguard", "non-invertible statement element rejected", qv, -1, latNil, "(*math/big.Int).ModInverse")
+	// the transcript absorbs |v| (FillBytes) and (-v)^C = v^C for an even challenge: a statement element
+	// replaced by its negative must be refused before the algebra
+	c.guard(p, "C16.verifyguard", "a negative statement element is refused", qv, GuardSpec{Assumes: []Assume{calleeAssume(latInt(-1), -1, "(*math/big.Int).Sign")}})
 	c.guard(p, "C16.verifyguard", "QN-DLEQ accepted only if the recomputed challenge equals C", qv, GuardSpec{Assumes: []Assume{calleeAssume(latInt(1), -1, "(*math/big.Int).Cmp")}})
 
 	// ---- dependence ----
